@@ -349,6 +349,7 @@ impl assets_manager::Asset for Big {
 }
 
 /// a big value stored inline (no indirection): the swap moves 4 KiB
+#[derive(Clone, Copy)]
 pub struct Inline {
     pub words: [u64; 512],
 }
@@ -400,7 +401,16 @@ pub fn c07(args: &[String]) {
             let mut n = 0u64;
             while !stop.load(Ordering::SeqCst) {
                 n += 1;
-                let kind = rng.gen_range(0..3);
+                let kind = rng.gen_range(0..4);
+                if kind == 3 {
+                    // the lock-free looking accessors must give whole values too
+                    let c = if n % 2 == 0 { h.copied() } else { h.cloned() };
+                    let (v, ok) = uniform(&c.words);
+                    if !ok {
+                        trace::emit(json!({"ev":"TornCopy","val":v}));
+                    }
+                    continue;
+                }
                 let g = h.read();
                 let rid = crate::front::rid_of(h.last_reload_id());
                 let (v, _) = uniform(&g.words);
@@ -464,6 +474,7 @@ pub fn c07(args: &[String]) {
             Some("Begin") | Some("End") if l["op"] == "hot_reload" => proj.push(json!({"ev":l["ev"]})),
             Some("Write") if l["id"] == "a" => proj.push(json!({"ev":"Write","rid":l["rid"]})),
             Some("GuardAcq") => proj.push(json!({"ev":"GuardAcq","th":l["th"],"rid":l["rid"],"val":l["val"]})),
+            Some("TornCopy") => torn += 1,
             Some("GuardRel") => {
                 if l["uniform"] == false {
                     torn += 1;
